@@ -18,6 +18,9 @@ Definition cN (x : N) (l : list N) : list N := x :: l.
 Definition pP (a b : N) : N * N := (a, b).
 Definition nP : list (N * N) := [].
 Definition cP (x : N * N) (l : list (N * N)) := x :: l.
+Definition pE (sid m : N) (entered : bool) : ev := (sid, (m, entered)).
+Definition nE : list ev := [].
+Definition cE (x : ev) (l : list ev) := x :: l.
 Definition pK (a : N) (b : list N) : N * list N := (a, b).
 Definition nK : list (N * list N) := [].
 Definition cK (x : N * list N) (l : list (N * list N)) := x :: l.
@@ -46,6 +49,8 @@ Fixpoint list_eqb {A} (e : A -> A -> bool) (a b : list A) : bool :=
   end.
 
 Definition pairNN_eqb (a b : N * N) : bool := (fst a =? fst b) && (snd a =? snd b).
+Definition ev_eqb (a b : ev) : bool :=
+  (fst a =? fst b) && (fst (snd a) =? fst (snd b)) && Bool.eqb (snd (snd a)) (snd (snd b)).
 Definition kv_eqb (a b : N * list N) : bool := (fst a =? fst b) && list_eqb N.eqb (snd a) (snd b).
 Definition sview_eqb (a b : sview) : bool :=
   (sv_peer a =? sv_peer b) && list_eqb N.eqb (sv_tags a) (sv_tags b) && (sv_qlen a =? sv_qlen b) && (sv_cap a =? sv_cap b).
@@ -55,6 +60,7 @@ Definition snap_eqb (a b : snap) : bool :=
   && list_eqb kv_eqb (sn_by_tag a) (sn_by_tag b).
 Definition obs_eqb (a b : obs) : bool :=
   (o_err a =? o_err b) && list_eqb N.eqb (o_ids a) (o_ids b) && list_eqb pairNN_eqb (o_takes a) (o_takes b)
+  && list_eqb ev_eqb (o_events a) (o_events b)
   && list_eqb N.eqb (o_closed a) (o_closed b) && list_eqb kv_eqb (o_removed a) (o_removed b)
   && snap_eqb (o_snap a) (o_snap b) && Bool.eqb (o_timely a) (o_timely b).
 
